@@ -40,6 +40,7 @@ simset.inject(wpool, wabs, wastream, wpipe, wshtml, wscss, wsjs, wssm, wobserver
 
 BUDGETS = {'C01': (50, 1200, 10), 'C02': (50, 1200, 10), 'C20': (50, 1200, 10)}
 LEVELS = {'C01': 'exploration', 'C02': 'exploration', 'C20': 'exploration'}
+WALL_LIMIT = {('C02', 'quick'): 240, ('C02', 'thorough'): 240}
 PROBES = {
     'C01': ['cycle', 'diamond', 'self_link', 'duplicate_link', 'alt_spelling', 'redirect', 'requisites', 'css_url', 'concurrency>1',
             'depth_limited', 'no_parent', 'regex', 'multi_start', 'redirect_target_also_linked', 'depth_race_possible', 'keepalive_off'],
